@@ -403,3 +403,40 @@ func VerifH_C16_large_body() {
 		}
 	}
 }
+
+// VerifH_C17_vary_survives_compression: a poll response of a session behind a CORS policy
+// that depends on the request (the middleware has put Vary: Origin and the reflected origin
+// on the response) goes through HTTP compression or not: the response as sent still carries
+// Vary: Origin and the Access-Control-Allow-Origin the middleware computed.
+func VerifH_C17_vary_survives_compression() {
+	p, _ := newPolling("4")
+	p.SetHttpCompression(&types.HttpCompression{Threshold: 0})
+	ae := c16Accept[verif.Choose(6)]
+	ctx, w := newCtx("GET", "4")
+	if ae != "" {
+		ctx.Request().Header.Set("Accept-Encoding", ae)
+		ctx.Headers().Set("Accept-Encoding", ae)
+	}
+	// what types.CorsMiddleware leaves on the context for an allowed origin of a list policy
+	ctx.ResponseHeaders.Set("Access-Control-Allow-Origin", "https://app.example")
+	ctx.ResponseHeaders.Set("Vary", "Origin")
+	p.OnRequest(ctx)
+	p.Send([]*packet.Packet{{Type: packet.MESSAGE, Data: types.NewStringBufferString("hello"), Options: &packet.Options{Compress: verif.Bool()}}})
+	verif.Settle()
+	verif.Assert(w.writeCalls == 1, "one response")
+	vary := ""
+	for i, v := range w.hdr.Values("Vary") {
+		if i > 0 {
+			vary += ", "
+		}
+		vary += v
+	}
+	hasOrigin := false
+	for _, t := range strings.Split(vary, ",") {
+		if strings.TrimSpace(t) == "Origin" || strings.TrimSpace(t) == "*" {
+			hasOrigin = true
+		}
+	}
+	verif.Assert(hasOrigin, "the response as sent carries Vary: Origin whenever the allowed origin depends on the request, compressed or not")
+	verif.Assert(w.hdr.Get("Access-Control-Allow-Origin") == "https://app.example", "and the Access-Control-Allow-Origin the policy computed")
+}
